@@ -691,7 +691,7 @@ func mergeStates(base int, states []*State) *State {
 				v, has := get(s)[k]
 				if !has && strings.HasPrefix(k, "calls:") {
 					// ghost call counters: 0 before any havoc of counters, else the generation's variable
-					v = scalarV(types.Typ[types.Int], mkInt(sortInt, 0))
+					v = scalarV(mathintType, mkInt(sortMath, 0))
 					has = true
 				}
 				if !has && get(live[0]) != nil && !strings.HasPrefix(k, "calls:") {
